@@ -980,10 +980,11 @@ impl Constant {
         match self {
             Constant::Bool(v) => Some(f32::from(*v)),
             Constant::IntLiteral(v) if *v <= f32::MAX as i128 => Some(*v as f32),
-            Constant::Int32(v) if *v >= 0 => Some(*v as f32),
+            Constant::Int32(v) => Some(*v as f32),
             Constant::UInt32(v) => Some(*v as f32),
-            Constant::Int64(v) if *v >= 0 => Some(*v as f32),
+            Constant::Int64(v) => Some(*v as f32),
             Constant::UInt64(v) => Some(*v as f32),
+            Constant::FloatLiteral(v) => Some(*v as f32),
             Constant::Float16(v) => Some(*v),
             Constant::Float32(v) => Some(*v),
             Constant::Float64(v) => Some(*v as f32),
